@@ -359,7 +359,11 @@ Qed.
 Theorem api_preservedb_correct : forall x, api_preservedb x = true <-> ApiPreserved x.
 Proof.
   intro x; unfold api_preservedb, ApiPreserved, c11_subsetb, c11_entryb, c11_itemsb, c11_dropb.
-  rewrite !andb_true_iff, !orb_true_iff, !negb_true_iff, !subsetb_iff, itemspreservedb_iff, disjointb_iff.
+  rewrite !andb_true_iff, !orb_true_iff, !negb_true_iff, !subsetb_iff, itemspreservedb_iff, disjointb_iff, forallb_forall.
+  assert (Hp : (forall p, In p (o_must_drop_paths x) -> negb (declares_path p (m_items (o_emit x))) = true) <->
+               (forall p, In p (o_must_drop_paths x) -> declares_path p (m_items (o_emit x)) = false)).
+  { split; intros H p Hin; specialize (H p Hin); [apply negb_true_iff in H; exact H | apply negb_true_iff; exact H]. }
+  rewrite Hp. clear Hp.
   destruct (o_exports_known x); destruct (o_entry x); intuition (try congruence).
 Qed.
 
